@@ -52,7 +52,8 @@ def synth(rng, interp, smax_model, field=None):
         a2 = rng.uniform(-0.03, 0.03) * base / (spin_C * pmax ** 2)
         krpf = lambda q: a1 * q + a2 * q * q
         T1f = lambda q: 1.0 / (spin_C * krpf(q) + 1.0 / (T100 + dT1w * q) + (1.0 / T10 - 1.0 / T100))
-        extra = {"delta_T1_water": dT1w * 1.0, "T1_water": T100, "macro_C": spin_C}
+        # the macromolecule concentration need not be the spin concentration: kHH*macro_C = 1/T10 - 1/T1_water whatever it is
+        extra = {"delta_T1_water": dT1w * 1.0, "T1_water": T100, "macro_C": spin_C * rng.choice([1.0, 0.5, 2.0])}
     T1E = T1f(p)
     E = 1.0 - ksigma * smax * p / (p12 + p) * spin_C * w * T1E
     data = {"E_array": E, "E_powers": p, "T1_array": T1f(pT), "T1_powers": pT, "T10": T10, "T100": T100, "spin_C": spin_C,
@@ -67,6 +68,7 @@ def run(tier, seed, escalate=False):
         tier = "thorough"
     rng = random.Random(seed * 7919 + 20)
     fails, mism, n_eval, model_ops, model_ctx = [], [], 0, [], []
+    t1_jobs = []
     # ---------------- (a) xi / tcorr
     nt, nf = (20, 5) if tier == "quick" else (60, 12)
     for field in np.linspace(0.3, 15.0, nf):
@@ -115,6 +117,9 @@ def run(tier, seed, escalate=False):
                 if not np.allclose(res["interpolated_T1"], truth["T1E"], rtol=1e-6):
                     key = "C20:T1-interpolation-not-exact:" + interp
                     fails.append({"key": key, "clause": key, "ops": [{"interp": interp}]})
+                # T1 interpolation through the Lean transforms: model forward transform -> numpy.polyfit / polyval (external, as a
+                # table) -> model back transform must give the implementation's interpolated T1
+                t1_jobs.append((data, extra, interp, np.asarray(res["interpolated_T1"], dtype=float), label))
                 # closed-form part through the Lean model, fed the implementation's own fit results
                 model_ops.append({"op": "hydration", "E": [rstr(x) for x in data["E_array"]], "T1p": [rstr(x) for x in res["interpolated_T1"]],
                                   "spinC": rstr(data["spin_C"]), "omegaRatio": rstr(truth["w"]), "T10": rstr(data["T10"]), "T100": rstr(data["T100"]),
@@ -169,6 +174,28 @@ def run(tier, seed, escalate=False):
                 d.append(k)
         if d:
             mism.append({"diffs": d, "ops": [{"label": label}], "stream": -1, "explained_by_known": False})
+    # ---------------- correspondence of the T1 transforms
+    def t1_common(data, extra, interp):
+        c = {"T10": rstr(data["T10"]), "T100": rstr(data["T100"]), "spinC": rstr(data["spin_C"])}
+        if interp == "second_order":
+            c.update({"T1w": rstr(extra["T1_water"]), "dT1w": rstr(extra["delta_T1_water"]), "macroC": rstr(extra["macro_C"])})
+        return c
+    fwd_ops = [dict({"op": "hydration", "mode": ("linear-fwd" if it == "linear" else "second-fwd"),
+                     "x": [rstr(v) for v in d["T1_array"]], "p": [rstr(v) for v in d["T1_powers"]]}, **t1_common(d, e, it))
+               for d, e, it, _, _ in t1_jobs]
+    fouts, _ = run_model(fwd_ops) if fwd_ops else ([], 0)
+    back_ops = []
+    for (d, e, it, _, _), o in zip(t1_jobs, fouts):
+        y = np.array([float(Fraction(v)) for v in o["y"]])
+        coef = np.polyfit(d["T1_powers"], y, 1 if it == "linear" else 2)
+        mid = np.polyval(coef, d["E_powers"])
+        back_ops.append(dict({"op": "hydration", "mode": ("linear-back" if it == "linear" else "second-back"),
+                              "x": [rstr(v) for v in mid], "p": [rstr(v) for v in d["E_powers"]]}, **t1_common(d, e, it)))
+    bouts, _ = run_model(back_ops) if back_ops else ([], 0)
+    for (d, e, it, impl_t1, label), o in zip(t1_jobs, bouts):
+        m = np.array([float(Fraction(v)) for v in o["y"]])
+        if m.shape != impl_t1.shape or not np.allclose(m, impl_t1, rtol=1e-10, atol=0):
+            mism.append({"diffs": ["interpolated_T1:" + it], "ops": [{"label": label}], "stream": -1, "explained_by_known": False})
     seen, uniq = set(), []
     for f in fails:
         if f["key"] not in seen:
